@@ -120,9 +120,9 @@ class Trig:
             return str(prev + self.delay)
         if self.kind == "fl":
             return "E%d" % self.code
-        if self.script:
-            return self.script.pop(0)
-        return self.dflt
+        r = self.script.pop(0) if self.script else self.dflt
+        # Ew: the trigger reports expiry with the sentinel wrapped (fmt.Errorf("...: %w", ErrTriggerExpired)); it is an expiry
+        return "E0" if r == "Ew" else r
 
 
 def err_of(res):
@@ -320,6 +320,7 @@ def run_steps(ctx, binp, ml, profile, seed, only=None, timeout=900):
            "api_calls": 0, "fetches": 0, "foreign": 0, "fetch_classes": {}, "result_classes": {}, "no_verdict": 0,
            "trace": trace, "dropped_reports": 0}
     trigs, reg = {}, {}   # oracle state for line-per-command traces
+    produced, flagged = {}, set()   # per job key: fire times its own trigger returned for it (or a foreign writer queued)
     bad_seq = False
     seq_cmds = []
     cur = ""
@@ -339,7 +340,9 @@ def run_steps(ctx, binp, ml, profile, seed, only=None, timeout=900):
                 continue
             pp = line.rstrip("\n").split("\t")
             c, o = pp[0], (pp[1] if len(pp) > 1 else "")
-            meta = pp[2] if len(pp) > 2 else cur
+            # third field: of a Q line the sequence id; of a step line extra facts for the oracles (after=<clock after the step> ...)
+            meta = pp[2] if (len(pp) > 2 and c.startswith("Q ")) else cur
+            extra = dict(x.split("=", 1) for x in pp[2].split(" ") if "=" in x) if (len(pp) > 2 and not c.startswith("Q ")) else {}
             mline, sline = None, None
             if mf is not None:
                 ms = mf.readline().rstrip("\n").split("\t")
@@ -377,6 +380,7 @@ def run_steps(ctx, binp, ml, profile, seed, only=None, timeout=900):
             t = c.split()
             if t[0] == "reset":
                 trigs, reg, bad_seq, seq_cmds = {}, {}, False, []
+                produced, flagged = {}, set()
                 continue
             seq_cmds.append(c)
             if t[0] == "T":
@@ -388,6 +392,40 @@ def run_steps(ctx, binp, ml, profile, seed, only=None, timeout=900):
 
             oparts = o.split(" | ")
             oreg = parse_reg(oparts[1]) if len(oparts) == 2 else None
+            # --- C03 on what was observed alone (independent of the step specification and of earlier differences) ---
+            ocalls = re.findall(r"\[([^\]]*)\]", oparts[0])
+            ocalls = [x.split(":") for x in ocalls[-1].split(",") if x] if ocalls else []
+            okey = None
+            if t[0] in ("A", "AXP", "AXR") and len(t) >= 5 and t[2] in ("S", "R"):
+                okey = t[3] + "/" + t[4]
+            elif t[0] in ("F", "FX") and oparts[0].split(" ")[0].count(":") >= 2:
+                okey = oparts[0].split(" ")[0].rsplit(":", 2)[0]
+            if t[0] in ("F", "FX") and okey is not None:
+                ret = oparts[0].split(" ")[0].rsplit(":", 2)
+                if ret[2] == "1" and re.fullmatch(r"-?\d+", ret[1]):
+                    prio = int(ret[1])
+                    after = int(extra["after"]) if re.fullmatch(r"\d+", extra.get("after", "")) else None
+                    if after is not None and prio > after and ("early", okey) not in flagged:
+                        flagged.add(("early", okey))
+                        keep(res["failures"], {
+                            "case": context(), "observed": o, "specification": "%s:%d:0 [] - (not due: requeued unchanged, not executed)" % (okey, prio),
+                            "early_execution": True, "fire_time": prio, "clock_after_the_fetch": after, "early_by_ns": prio - after,
+                            "why": ["fetchAndReschedule returned job %s as valid (to be executed) for fire time %d, but the clock read AFTER the "
+                                    "fetch had returned was %d: the job is run at least %d ns before its fire time" % (okey, prio, after, prio - after)]})
+                    if prio not in produced.get(okey, ()) and ("invented", okey) not in flagged:
+                        flagged.add(("invented", okey))
+                        keep(res["failures"], {
+                            "case": context(), "observed": o, "specification": "a valid dequeue carries a fire time returned by the job's own trigger",
+                            "invented_fire_time": True, "fire_time": prio,
+                            "fire_times_produced_for_the_job": sorted(produced.get(okey, ()))[-8:],
+                            "why": ["fetchAndReschedule returned job %s as valid (to be executed) for the instant %d, which none of the NextFireTime "
+                                    "calls made for this job returned (and no foreign writer queued): an execution without a fire time" % (okey, prio)]})
+            if okey is not None:
+                for cc in ocalls:
+                    if len(cc) == 3 and re.fullmatch(r"-?\d+", cc[2]):
+                        produced.setdefault(okey, set()).add(int(cc[2]))
+            if t[0] == "X" and len(t) >= 5 and t[1] == "push":
+                produced.setdefault(t[2] + "/" + t[3], set()).add(int(t[4]))
             # --- model ---
             if mline is not None and o != mline:
                 ml2 = norm_fetch(o, mline) if t[0] in ("F", "FX") else mline
@@ -431,6 +469,14 @@ def run_steps(ctx, binp, ml, profile, seed, only=None, timeout=900):
                       "why": ["the implementation's answer differs from the property's specification of this step"]}
                 if t[0] in ("F", "FX") and want.split(" ")[0].rsplit(":", 2)[0] in susp_before:
                     fl["popped_suspended"] = True
+                if t[0] == "F" and len(oparts[0].split(" ")) == 4 and oparts[0].split(" ")[2] == "-" and " M" in want.split(" | ")[0]:
+                    how = ("a listener goroutine was parked in a receive on the unbuffered MisfiredChan" if extra.get("listener-parked-in-receive") == "1"
+                           else "MisfiredChan had free capacity (%s occupied before the fetch)" % extra.get("misfired-chan", "0"))
+                    fl["misfire_not_offered"] = True
+                    fl["why"] = ["the dequeued fire time was more than OutdatedThreshold late (skipped and re-based), but it was not offered to "
+                                 "MisfiredChan although " + how] + fl["why"]
+                if extra:
+                    fl["step_facts"] = extra
                 if t[0] == "FX":
                     # a failing push-back: what the property forbids is that the fire time just handed out as valid is
                     # still in the queue (it would be handed out again); other ways of coping with the failure are not judged here
@@ -490,7 +536,7 @@ def tags_of(f):
     op, wp = o.split(" | "), w.split(" | ")
     ot, wt = op[0].split(" "), wp[0].split(" ")
     tg = set()
-    if f.get("duplicated_fire_time"):
+    if f.get("duplicated_fire_time") or f.get("early_execution") or f.get("invented_fire_time"):
         return {"C03"}
     if o.startswith("BLOCKED"):
         return {"C04"}
